@@ -681,3 +681,56 @@ func VerifC13AliasKeys() {
 	verifAssert(verifEqStr(got, want), "C13/resolves-per-merge-rules "+label)
 	verifCover("C13/alias-keys/end")
 }
+
+// VerifC13DecodedAnchors: anchors as the YAML DECODER registers them (the other C13 harnesses build their nodes): an
+// alias names the nearest anchor of that name written before it in the text - an anchor on a map key is in force
+// inside that key's value, a name anchored again takes over from there on, a second document starts afresh. Texts
+// with their expected reads, on the traverse and the explode route.
+func VerifC13DecodedAnchors() {
+	type tc struct{ text, path, want string }
+	cases := []tc{
+		{"&svc api: {name: *svc}\n", ".api.name", "api"},
+		{"a: &z eu\n&z zone: {label: *z}\n", ".zone.label", "zone"},
+		{"a: &z eu\n&z zone: {label: *z}\n", ".a", "eu"},
+		{"a: &x 1\nb: *x\nc: &x 2\nd: *x\n", ".b", "1"},
+		{"a: &x 1\nb: *x\nc: &x 2\nd: *x\n", ".d", "2"},
+		{"k: &x first\n---\n&x second: {v: *x}\n", ".second.v", "second"},
+		{"? &k key\n: {again: *k}\n", ".key.again", "key"},
+		{"l: [&i 1, *i, &i 2, *i]\n", ".l[3]", "2"},
+		{"l: [&i 1, *i, &i 2, *i]\n", ".l[1]", "1"},
+		{"m: &m {a: 1}\nn: {<<: *m, b: &m 2}\no: *m\n", ".o", "2"},
+	}
+	ci := verifChoice("case", len(cases))
+	c := cases[ci]
+	route := verifChoice("route", 2)
+	dec := NewYamlDecoder(NewDefaultYamlPreferences())
+	if dec.Init(strings.NewReader(c.text)) != nil {
+		verifFail("C13/decoder-init")
+	}
+	var doc *CandidateNode
+	for {
+		d, err := dec.Decode()
+		if err != nil {
+			break
+		}
+		doc = d // the last document
+	}
+	label := "decoded-anchors text=" + verifItoa(int64(ci)) + " route=" + c13RouteNames[route]
+	if doc == nil {
+		verifFail("C13/decode-failed " + label)
+		return
+	}
+	expr := c.path
+	if route == 1 {
+		expr = "explode(.) | " + c.path
+	}
+	res, err := vEval(vParse(expr), doc)
+	verifAssert(err == nil && res.Len() == 1, "C13/read-error "+label)
+	if err != nil || res.Len() != 1 {
+		return
+	}
+	r := res.Front().Value.(*CandidateNode).unwrapAlias()
+	verifObserve("got", r.Value)
+	verifAssert(r.Value == c.want, "C13/alias-resolves-to-another-anchor "+label)
+	verifCover("C13/decoded-anchors/end")
+}
